@@ -32,7 +32,7 @@ pub fn check() -> Check {
                Macro half (programs): generated declarations (C09's grammar: derived and explicit names incl. multi-byte, any order, split across groups, hidden groups, catch-all member), compiled with the repository's macros, probed with prefixes of their own names. \
                Oracle: longest-common-continuation model over scalar values with a trailing space iff exactly one name matches and it fits; when a candidate does not fit the buffer any scalar-boundary prefix of the common continuation without a space is accepted; \
                always: typed non-blank text is a prefix of the result, length <= buffer, well-formed UTF-8, unchanged when nothing matches or an argument was started; the terminal emulator must show prompt + new line. \
-               Non-trivial = at least two names match and they are not adjacent in declaration order, or one matching name is a prefix of another, or fewer than 2 bytes are free, or the common continuation contains a multi-byte character; distinct by (names, line, cursor, buffer).",
+               Non-trivial = at least two names match and they are not adjacent in declaration order, or one matching name is a prefix of another, or fewer than 2 bytes are free, or the common continuation contains a multi-byte character; distinct by (names, line, cursor, buffer). Since rounds 11-13: the hand-written Autocomplete also works out the common continuation of its names itself, merges it once and calls mark_partial() exactly when two or more names match (no zone there); lines carry blanks other than U+0020 (ordinary characters) in front of the word, behind it and as a second word; for lines of odd length a Tab with a command set that knows no command is pressed in front of the judged Tab and must change nothing.",
         assumptions: &[
             "duplicate names, a user command called `help`, names containing blanks are outside the quantified domain and not generated",
             "Tab with the cursor inside the trailing blanks may complete or leave the line unchanged (both accepted)",
